@@ -438,7 +438,7 @@ def c20_p1(ctx):
                     yield bad("C20-P1", key, at(f, s["span"]["line"]), "%s.progress <- %s, not the progress counter" % (ind, txt))
 
 
-@rule("C20", "C20-P2", 1, "the receiver's counter is written only by adding the insert operation's new-bytes result", also=("C17",))
+@rule("C20", "C20-P2", 1, "the receiver's counter is written only by adding the insert operation's new-bytes result", also=("C17", "C09"))
 def c20_p2(ctx):
     fns = impl_and_closures(ctx, RECV)
     n = 0
@@ -899,6 +899,19 @@ def c09_g6(ctx):
             yield bad("C09-G6", key, at(f, t["span"]["line"]), "merge(v, %s) coalesces at an index whose end was not the one just extended (extended: %s): ranges swallowed by the extended one stay in the list and are counted as new" % (k[-80:], sorted({w[1][-60:] for w in near})))
     if n == 0:
         raise Anchor("C09-G6", "calls of segments::merge")
+    # ... and the other way round: an end extended in the middle of the list is always followed by the helper
+    helper_blocks = {b for b, t in f.all_calls() if (ctx.prog.callee_of(t)[1] or ctx.prog.callee_of(t)[0]) == helper.norm}
+    seen = set()
+    for wb, k in writes:
+        if (wb, k) in seen:
+            continue
+        seen.add((wb, k))
+        key = "Segments::merge:end-extended[%s]" % re.sub(r"_\d+", "_", k)[-50:]
+        if wb in helper_blocks:
+            continue
+        r = f.reachable(wb, avoid=helper_blocks)
+        if any(f.blocks[x]["term"]["k"] == "return" for x in r):
+            yield bad("C09-G6", key, at(f, f.blocks[wb]["term"]["span"]["line"]), "the end of the held range at index %s is extended and a path returns without coalescing it with the ranges to its right: touching or overlapping ranges stay separate (completeness and gaps are then computed from a list that is not disjoint)" % k[-60:])
 
 
 @rule("C09", "C09-G7", 1, "a reported gap never extends beyond the window: its end is the window end, or the start of a held range tested to lie before the window end", also=("C08",))
